@@ -28,6 +28,8 @@ Out(s, op) ==
       [] op.n = "delete" -> IF op.a[1] \in DOMAIN s.m
                               THEN { O([s EXCEPT !.m = Del(@, op.a[1])], R(TRUE, 0, <<>>)) }
                               ELSE { O(s, R(FALSE, 0, <<>>)) }
+      \* Get as a call of its own between the edits: answers from the current map, changes nothing
+      [] op.n = "get"    -> IF op.a[1] \in DOMAIN s.m THEN { O(s, R(TRUE, s.m[op.a[1]], <<>>)) } ELSE { O(s, R(FALSE, 0, <<>>)) }
       [] OTHER           -> {}
 
 \* keys in comparator order
